@@ -142,6 +142,15 @@ def build_jobs(t_, sd):
                     for be in ("main", "sub"):
                         jobs.append({"id": "intexpr-%s:%s@v%d/%s" % (nm, T.T_str(t), v, be), "family": "literal:int-expr", "type": to_json(t), "lens": [0], "version": v,
                                      "backend": be, "literal": to_json(lit), "int_exprs": True, "fn": "encode"})
+    # integer and bool leaves set from value-preserving expressions of several AST classes (binary, n-ary, Seq, If): what a leaf
+    # receives must not depend on how the expression is written
+    for t in (G.BOOL, G.tup(G.BOOL, G.BOOL, G.BOOL, G.U8), ("sarray", G.BOOL, 9), ("darray", G.BOOL), G.tup(G.U8, G.U16, G.U32, G.U64, G.BOOL),
+              ("sarray", G.U16, 3), G.tup(G.BOOL, G.STR, G.BOOL)):
+        for lv in G.len_vectors(t, t_, sd)[:2]:
+            for v in ((6, 8) if not thorough else (5, 6, 8, 10)):
+                for be in ("main", "sub"):
+                    jobs.append({"id": "exprforms:%s:%s@v%d/%s" % (T.T_str(t), lv, v, be), "family": "encode:expr-forms", "type": to_json(t), "lens": lv, "version": v,
+                                 "backend": be, "expr_forms": True, "fn": "encode"})
     # an ABI integer set from another ABI integer (every pair of widths): whatever PyTeal accepts must not truncate silently
     for tb in (8, 16, 32, 64):
         for sb in (8, 16, 32, 64):
